@@ -101,18 +101,47 @@ def plan(tier, seed, kf_ids):
                     jobs.append(mk(name, "from_if", "%s, %s" % (it, c.ty(sd, wd, f)),
                                    "From<%s>/LossyFrom<%s> for %s are exact for every integer" % (it, it, c.alias(sd, wd, f)),
                                    "From %s->%s" % (it, c.alias(sd, wd, f))))
+    # LossyFrom<fixed> for integers: zero integer bits, and integer bits == destination bits (edge of the bound)
+    for ss in ("I", "U"):
+        for ws in widths:
+            for it in ("i8", "i16", "i32", "i64", "i128", "isize", "u8", "u16", "u32", "u64", "u128", "usize"):
+                if ss == "I" and it[0] == "u":
+                    continue
+                bound = 16 if it in ("isize", "usize") else IW[it]
+                m1 = 1 if (ss == "U" and it[0] == "i") else 0
+                for isrc in sorted(set([0, min(ws, bound - m1)])):
+                    fs = ws - isrc
+                    if fs < 0 or isrc > bound - m1:
+                        continue
+                    if q and isrc != 0 and rnd.random() < 0.75:
+                        continue
+                    if q and isrc == 0 and it not in ("i8", "i64", "isize", "u16", "u128") and rnd.random() < 0.5:
+                        continue
+                    name = "c04_lossyint_%s_%s" % (c.tag(ss, ws, fs), it)
+                    jobs.append(mk(name, "lossy_fi", "%s, %s" % (c.ty(ss, ws, fs), it),
+                                   "LossyFrom<%s> for %s is the floor of the value for every source value" % (c.alias(ss, ws, fs), it),
+                                   "LossyFrom %s->%s" % (c.alias(ss, ws, fs), it)))
+            # From<fixed F0> for integers of the same or a wider width
+            for it in ("i8", "i16", "i32", "i64", "i128", "u8", "u16", "u32", "u64", "u128"):
+                wi = IW[it]
+                ok = (wi >= ws and ((ss == "I") == (it[0] == "i"))) or (wi > ws and ss == "U" and it[0] == "i")
+                if not ok or (q and rnd.random() < 0.7):
+                    continue
+                name = "c04_fromfixed_%s_%s" % (c.tag(ss, ws, 0), it)
+                jobs.append(mk(name, "from_fi", "%s, %s" % (c.ty(ss, ws, 0), it),
+                               "From<%s> for %s preserves every value" % (c.alias(ss, ws, 0), it), "From %s->%s" % (c.alias(ss, ws, 0), it)))
     return {
         "engine_m": ["tofixed"],
         "feature": "c04",
         "jobs": jobs,
         "functions": ["traits.rs: FromFixed/ToFixed for Fixed*, for the 12 integer types and bool ({,checked_,saturating_,"
                       "wrapping_,overflowing_}{from,to}_fixed)", "macros_from_to.rs: from_num/to_num families",
-                      "int_helper.rs: IntHelper::to_fixed_helper", "convert.rs: From / LossyFrom (fixed->fixed, int->fixed)"],
+                      "int_helper.rs: IntHelper::to_fixed_helper", "convert.rs: From / LossyFrom (fixed->fixed, int->fixed, fixed->int)"],
         "bounds": "every source value for each instantiated ordered (source, destination) pair; pairs: every ordered family "
                   "pair at boundary/crossed/seeded layout pairs, every family against the 12 integer types, From/LossyFrom at "
                   "the edges of their type-level bounds",
         "outside": ["layout pairs not instantiated", "that no inadmissible pair has a From/LossyFrom impl (compile-time fact)",
-                    "From<fixed> for primitive integers and floats"],
+                    "From/LossyFrom<fixed> for floats (C05)"],
         "assumptions": ["plain from_num/to_num only called when the value fits (documented debug panic)"],
         "stubs": [],
     }
